@@ -120,6 +120,9 @@ func (m *UnsubscribeMessage) Decode(src []byte) (int, error) {
 		return total, err
 	}
 
+	// The packet ends where the fixed header says it ends.
+	src = src[:total+int(m.remlen)]
+
 	if len(src) < total+2 {
 		return total, fmt.Errorf("unsubscribe/Decode: Insufficient buffer size. Expecting %d, got %d", total+2, len(src))
 	}
@@ -142,6 +145,10 @@ func (m *UnsubscribeMessage) Decode(src []byte) (int, error) {
 
 	if len(m.topics) == 0 {
 		return 0, fmt.Errorf("unsubscribe/Decode: Empty topic list")
+	}
+
+	if total != len(src) {
+		return total, fmt.Errorf("unsubscribe/Decode: Remaining length (%d) does not match the packet", m.remlen)
 	}
 
 	m.dirty = false
